@@ -36,11 +36,14 @@ type Q struct {
 }
 
 // Methods lists the ten indexed lookups plus the full listing: name, returned component, fixed parts.
-var Methods = []struct {
+// Method describes one lookup of storage.Graph: result component C (o/s/p/t) and which arguments it takes.
+type Method struct {
 	Name    string
 	C       string
 	S, P, O bool
-}{
+}
+
+var Methods = []Method{
 	{"Objects", "o", true, true, false},
 	{"Subjects", "s", false, true, true},
 	{"PredicatesForSubject", "p", true, false, false},
